@@ -6,6 +6,7 @@ import (
 	"fmt"
 	"os"
 	"path/filepath"
+	"runtime/metrics"
 	"sort"
 	"strings"
 	"syscall"
@@ -356,8 +357,12 @@ func applyFault(r *spec.Rng, d []byte, other []byte) ([]byte, string) {
 	case 4:
 		out := append([]byte(nil), d...)
 		l := 1 + r.Intn(32)
+		fill := byte([]int{0, 0, 0xFF}[r.Intn(3)])
 		for i := o; i < o+l && i < len(out); i++ {
-			out[i] = 0
+			out[i] = fill
+		}
+		if fill != 0 {
+			return out, fmt.Sprintf("erased-sector(%d,%d)", o, l)
 		}
 		return out, fmt.Sprintf("zero-sector(%d,%d)", o, l)
 	case 5:
@@ -610,9 +615,11 @@ func (s *diskState) one(entry string, it *corpusItem, in spec.Info, enumerated b
 	verifrt.AllocCap = B
 	verifrt.AllocTotalCap = 4 * B
 	var or spec.OpResult
+	alloc0 := heapAllocs()
 	t0 := time.Now()
 	guard(&or, func() error { return runEntry(s.env, entry, in, data) })
 	ms := float64(time.Since(t0).Microseconds()) / 1000
+	allocated := heapAllocs() - alloc0
 	verifrt.StepCap, verifrt.AllocCap, verifrt.AllocTotalCap = ^uint64(0), ^uint64(0), ^uint64(0)
 	res.Steps += verifrt.Total
 	if ms > res.SlowestMs {
@@ -700,6 +707,29 @@ func (s *diskState) one(entry string, it *corpusItem, in spec.Info, enumerated b
 	default:
 		res.Outcomes["ok"]++
 	}
+	if allocated > B && !strings.HasPrefix(or.PanicKind, "sentinel-") {
+		// bytes allocated through paths the make() ledger does not see (append, bytes.Buffer, io.ReadAll)
+		res.Outcomes["allocated-above-budget"]++
+		hsig := fmt.Sprintf("budget-heap: %s", entry)
+		record(hsig, "budget-heap", fmt.Sprintf("%d bytes were allocated during the call (budget %d); declared S=%d len=%d", allocated, B, S, len(data)))
+		if f := s.find[hsig]; f != nil {
+			// keep the examples that allocated most: they are confirmed first
+			switch {
+			case len(f.Alt) < 4:
+				f.Alt, f.AltVal = append(f.Alt, mkCase()), append(f.AltVal, allocated)
+			default:
+				mi := 0
+				for i := range f.AltVal {
+					if f.AltVal[i] < f.AltVal[mi] {
+						mi = i
+					}
+				}
+				if allocated > f.AltVal[mi] {
+					f.Alt[mi], f.AltVal[mi] = mkCase(), allocated
+				}
+			}
+		}
+	}
 	if ms > 3000 && !strings.HasPrefix(or.PanicKind, "sentinel-") {
 		record(fmt.Sprintf("budget-wall: %s", entry), "budget-wall", fmt.Sprintf("instrumented run took %.0f ms; declared S=%d len=%d", ms, S, len(data)))
 	}
@@ -770,6 +800,59 @@ func diskMain(inPath, outPath string) {
 						out[o] = byte(v)
 						return out, []string{fmt.Sprintf("poke(%d,%#x)", o, v)}
 					})
+				}
+			}
+			// torn write at every offset: the new stream up to there, then an erased (0xFF) or
+			// zeroed medium for the rest of the frame
+			if ei == 0 {
+				for o := 2; o < len(d); o++ {
+					for _, fill := range []byte{0xFF, 0x00} {
+						o, fill := o, fill
+						s.one(entry, it, it.info, true, func() ([]byte, []string) {
+							out := append([]byte(nil), d[:o]...)
+							for len(out) < len(d) {
+								out = append(out, fill)
+							}
+							return out, []string{fmt.Sprintf("torn(%d,%#x)", o, fill)}
+						})
+					}
+				}
+			}
+			// a lost sector inside the frame: 4 or 8 bytes read back erased (0xFF) or zeroed, the rest intact
+			if ei == 0 {
+				for o := 2; o+4 <= len(d); o++ {
+					for _, l := range []int{4, 8} {
+						for _, fill := range []byte{0xFF, 0x00} {
+							o, l, fill := o, l, fill
+							s.one(entry, it, it.info, true, func() ([]byte, []string) {
+								out := append([]byte(nil), d...)
+								for i := o; i < o+l && i < len(out); i++ {
+									out[i] = fill
+								}
+								return out, []string{fmt.Sprintf("sector(%d,%d,%#x)", o, l, fill)}
+							})
+						}
+					}
+				}
+			}
+			// entropy-coded body: every byte, a few values (bit flips at both ends, 0x00, 0xFF)
+			if ei == 0 {
+				for o := it.hdrEnd; o < len(d); o++ {
+					bv := []int{int(d[o]) ^ 0x01, int(d[o]) ^ 0x80, 0x00, 0xFF}
+					if !it.ht {
+						bv = append(bv, int(d[o])^0x10, 0x7F)
+					}
+					for _, v := range bv {
+						if byte(v) == d[o] {
+							continue
+						}
+						o, v := o, v
+						s.one(entry, it, it.info, true, func() ([]byte, []string) {
+							out := append([]byte(nil), d...)
+							out[o] = byte(v)
+							return out, []string{fmt.Sprintf("poke-body(%d,%#x)", o, v)}
+						})
+					}
 				}
 			}
 		}
@@ -853,3 +936,14 @@ func diskMain(inPath, outPath string) {
 }
 
 var _ = unsafe.Sizeof(0)
+
+var allocSample = []metrics.Sample{{Name: "/gc/heap/allocs:bytes"}}
+
+// heapAllocs returns the cumulative number of bytes allocated on the heap.
+func heapAllocs() uint64 {
+	metrics.Read(allocSample)
+	if allocSample[0].Value.Kind() == metrics.KindUint64 {
+		return allocSample[0].Value.Uint64()
+	}
+	return 0
+}
